@@ -5,6 +5,7 @@ Line-protocol driver: one operation per input line, one canonical output line pe
 import Gpa.Generated.Facts
 import Gpa.Model.Hex
 import Gpa.Model.Health
+import Gpa.Model.RbacWire
 
 open Gpa
 
@@ -28,6 +29,12 @@ def stepLine (st : DState) (line : String) : DState × String :=
           let r := Health.ServiceState.note st.svc k v Facts.stateNoteMax
           ({ st with svc := r.1 }, if r.2 then "true" else "false")
       | _, _ => (st, "bad-op")
+  | "rbac" :: toks =>
+      match Tok.run (do let it ← Rbac.pItem; let u ← Rbac.pUri; let c ← Rbac.pClaims; pure (it, u, c)) toks with
+      | some (it, u, c) =>
+          let d := fun (b : Bool) => if b then "allow" else "deny"
+          (st, s!"{d (Rbac.isAllowed (Rbac.compute it) u c)} {d (Rbac.specAllowed it u c)} {if Rbac.distinctNames it then 1 else 0}")
+      | none => (st, "bad-op")
   | _ => (st, "bad-op")
 
 partial def loop (h : IO.FS.Stream) (out : IO.FS.Stream) (st : DState) : IO Unit := do
